@@ -73,7 +73,7 @@ CHECKS = {
     },
     "C06": {
         "runs": [
-            R(LAB, "^TestC06", {"checks": 600, "timeout": 600}, {"checks": 2500, "shards": 16, "timeout": 2400}),
+            R(LAB, "^TestC06", {"checks": 400, "timeout": 600}, {"checks": 2500, "shards": 16, "timeout": 2400}),
         ],
     },
     "C05": {
